@@ -694,7 +694,11 @@ func (fc *FnCtx) runLoop(st *State, lp loopParts) []Outcome {
 						fc.applyUses(e.St, "use-loop", lp.ord, lp.bodyPos, lp.stmt)
 						for i, cl := range c.loopClauses("body", lp.ord) {
 							fc.headEnv, fc.headFresh = headSnap.env, headSnap.fresh
+							// body clauses see the locals declared in the loop body
+							savedPos := lp.bodyPos
+							lp.bodyPos = lp.body.Rbrace - 1
 							t := trClause(e.St, cl)
+							lp.bodyPos = savedPos
 							fc.headEnv, fc.headFresh = nil, nil
 							fc.oblige(e.St, fmt.Sprintf("body#%d/%s", lp.ord, label(i, cl)), "loop-body", c.tagsFor(cl), t, "effect of one iteration: "+cl.Text, lp.stmt)
 						}
@@ -771,6 +775,10 @@ func (fc *FnCtx) runLoop(st *State, lp loopParts) []Outcome {
 	}
 	for _, cl := range invs {
 		h.addAssume(trClause(h, cl))
+	}
+	// the ghost index of a range loop starts at 0 and only grows
+	if iv, ok := h.env[fmt.Sprintf("rangeIndex%d", lp.ord)]; ok {
+		h.addAssume("(>= " + iv.T + " 0)")
 	}
 	if fc.dry == 0 {
 		fc.applyUses(h, "use-loop", lp.ord, lp.bodyPos, lp.stmt)
